@@ -8,7 +8,7 @@ from . import common
 
 NAME = "U-unary"
 TOOL = "verus"
-PROPS = ["C01", "C15", "C16"]
+PROPS = ["C01", "C15", "C16", "C10"]
 RLIMIT = 100
 TRUSTED = ["verus 0.2026.09.13 + z3", "generate_expr / generate_arithm are recording stubs (U-arithm: the operation on the byte asked for; an Immediate operand contributes its low or its high byte)"]
 
@@ -44,8 +44,10 @@ BNOT_H = """pub(crate) fn generate_bnot(&mut self, expr: &Expr, pos: usize, high
         requires old(self).gh@.visits.len() == 0, old(self).gh@.ops.len() == 0,
         ensures final(self).compiler_state == old(self).compiler_state,
             (res is Ok && *expr is Integer) ==> res->Ok_0 == ExprType::Immediate(!expr->Integer_0), //@ C01,C10:bnot-constant
+            // from the property: an operand that folds to a constant (`~(1 + 2)`) gives the C value, the complement of the whole constant -- not a 16-bit mask of it
+            (res is Ok && !(*expr is Integer) && operand_of(*expr, high_byte) is Immediate) ==> res->Ok_0 == ExprType::Immediate(!operand_of(*expr, high_byte)->Immediate_0), //@ C10,C01:bnot-of-a-folded-constant-is-its-complement
             // the byte asked for of the operand, exclusive-or 0xff
-            (res is Ok && !(*expr is Integer)) ==> final(self).gh@.visits.len() == 1 && final(self).gh@.visits[0].0 == *expr && final(self).gh@.visits[0].1 == high_byte
+            (res is Ok && !(*expr is Integer) && !(operand_of(*expr, high_byte) is Immediate)) ==> final(self).gh@.visits.len() == 1 && final(self).gh@.visits[0].0 == *expr && final(self).gh@.visits[0].1 == high_byte
                 && final(self).gh@.ops.len() == 1 && final(self).gh@.ops[0].0 == operand_of(*expr, high_byte) && final(self).gh@.ops[0].1 == Operation::Xor(false)
                 && final(self).gh@.ops[0].2 is Immediate && byte_of(final(self).gh@.ops[0].2->Immediate_0, high_byte) == 255 && final(self).gh@.ops[0].3 == high_byte, //@ C01,C15:bnot-complements-the-byte-asked-for
 """
@@ -83,6 +85,9 @@ def candidates(f):
         prog("unsigned char c, d;", "d = ~c;", {"init": {"c": c}, "expect": {"d": (~c) & 0xff}}, "~ of a char")
         prog("short u; unsigned char c;", "u = ~c;", {"init": {"c": c}, "expect16": {"u": (~c) & 0xffff}}, "~ of a char widened (integer promotion)")
         prog("unsigned char c, d;", "d = -c;", {"init": {"c": c}, "expect": {"d": (-c) & 0xff}}, "- of a char")
+    prog("unsigned char r;", "r = (~(1+2) == -4);", {"expect": {"r": 1}}, "~ of a folded constant compared with its C value")
+    prog("short s;", "s = ~(1+2) >> 4;", {"expect16": {"s": 0xffff}}, "~ of a folded constant, shifted")
+    prog("unsigned char r;", "r = (~3 == -4);", {"expect": {"r": 1}}, "~ of a literal")
     return out
 
 
